@@ -124,6 +124,12 @@ pub fn bump_generation(key: usize) -> usize {
     TokenInner::from(key).increment_version().into()
 }
 
+/// Do the two raw keys belong to the same source (same slot and generation, whatever their
+/// sub-ids), decided by the real comparison with `a` as the receiver?
+pub fn same_source(a: usize, b: usize) -> bool {
+    TokenInner::from(a).same_source_as(TokenInner::from(b))
+}
+
 /// The key a brand new slot with this index gets, or `None` if the index is rejected.
 pub fn new_slot_key(id: usize) -> Option<usize> {
     TokenInner::new(id).ok().map(Into::into)
